@@ -375,6 +375,7 @@ def run_job(job, exe, rundir, idx, default_prop):
                                    os.path.join(VERIF, 'driver', 'tsan.supp') + ':log_path=' + base + '.tsan')
         env.update(job.env)
         if job.valgrind:
+            cmd = cmd + ['cpubudget=0']   # CPU time under valgrind is no measure of anything
             cmd = ['valgrind', '--quiet', '--error-exitcode=77', '--leak-check=full', '--errors-for-leak-kinds=definite',
                    '--num-callers=25', '--track-origins=yes'] + cmd
         t0 = time.time()
@@ -434,8 +435,9 @@ def run_job(job, exe, rundir, idx, default_prop):
         # crash, sanitizer abort, deadlock verdict (exit 3) or library assert
         case = marks[-1]['case'] if marks else (viols[-1]['case'] if viols else None)
         crumb = marks[-1].get('crumb', '') if marks else ''
-        if rc in (3, 5) and viols:
-            pass   # deadlock verdict (3) or a monitor violation after which the harness refused to go on (5): already among viols
+        if rc in (3, 5, 6) and viols:
+            pass   # deadlock verdict (3), a monitor violation after which the harness refused to go on (5), or a case that
+            #        used up its CPU budget (6): already among viols
         else:
             sans = parse_sanitizer(errtxt)
             if sans:
@@ -451,6 +453,8 @@ def run_job(job, exe, rundir, idx, default_prop):
                 res.inconclusive.append('%s: harness exited with %r without a report: %s' % (job.label, rc, errtxt[-600:]))
                 break
         crashes += 1
+        if rc == 6:
+            crashes = max(crashes, 10)   # a loop that does not end: two more attempts at most, each costs a whole CPU budget
         if case is None or not job.restart or crashes >= 12:
             if case is not None:
                 res.cases_done += max(0, case - frm)
